@@ -404,12 +404,6 @@ func mapObjectProperties(mm map[string][]byte, o *Object) (hasData bool, err err
 		}
 		hasData = true
 	}
-	if o.Shares != nil {
-		if mm["shares"], err = gobEncodeItem(o.Shares); err != nil {
-			return hasData, err
-		}
-		hasData = true
-	}
 	if len(o.Source.MediaType)+len(o.Source.Content) > 0 {
 		if mm["source"], err = o.Source.GobEncode(); err != nil {
 			return hasData, err
@@ -425,12 +419,6 @@ func mapActorProperties(mm map[string][]byte, a *Actor) (hasData bool, err error
 		hasData, err = mapObjectProperties(mm, o)
 		return err
 	})
-	if a.Inbox != nil {
-		if mm["inbox"], err = gobEncodeItem(a.Inbox); err != nil {
-			return hasData, err
-		}
-		hasData = true
-	}
 	if a.Inbox != nil {
 		if mm["inbox"], err = gobEncodeItem(a.Inbox); err != nil {
 			return hasData, err
